@@ -24,6 +24,8 @@ import (
 )
 
 var (
+	tierLevel    int
+	openRegions  = map[string]bool{}
 	verbose      bool
 	noFallback   bool
 	reverseMaps  bool
@@ -31,34 +33,35 @@ var (
 )
 
 type HarnessResult struct {
-	Harness       string          `json:"harness"`
-	Paths         int             `json:"paths"`
-	PathKinds     map[string]int  `json:"path_kinds"`
-	Steps         int64           `json:"ssa_instructions"`
-	Obligations   int             `json:"obligations"`
-	Discharged    int             `json:"discharged"`
-	Trivial       int             `json:"discharged_concretely"`
-	Violations    []Violation     `json:"violations"`
-	Known         []KnownOut      `json:"known_findings"`
-	Reach         map[string]bool `json:"vacuity_witnesses"`
-	Incomplete    []string        `json:"incomplete"`
-	Unsupported   map[string]int  `json:"unsupported"`
-	Samples       []PathSample    `json:"samples"`
-	Queries       int             `json:"queries"`
-	Sat           int             `json:"sat"`
-	Unsat         int             `json:"unsat"`
-	Unknown       int             `json:"unknown"`
-	SolverErrors  int             `json:"solver_errors"`
-	Fallback      int             `json:"fallback_queries"`
-	SolverTime    float64         `json:"solver_time_s"`
-	Wall          float64         `json:"wall_s"`
-	Functions     []string        `json:"functions_encoded"`
-	Intrinsics    []string        `json:"intrinsics_used"`
-	GoSpawned     int             `json:"goroutines_deferred"`
-	Unwind        int             `json:"unwind_bound"`
-	CrossChecked  int             `json:"cross_checked"`
-	CrossDisagree int             `json:"cross_disagreements"`
-	ReverseMaps   bool            `json:"reversed_map_order"`
+	Harness       string             `json:"harness"`
+	Paths         int                `json:"paths"`
+	PathKinds     map[string]int     `json:"path_kinds"`
+	Steps         int64              `json:"ssa_instructions"`
+	Obligations   int                `json:"obligations"`
+	Discharged    int                `json:"discharged"`
+	Trivial       int                `json:"discharged_concretely"`
+	Violations    []Violation        `json:"violations"`
+	Known         []KnownOut         `json:"known_findings"`
+	Reach         map[string]bool    `json:"vacuity_witnesses"`
+	Incomplete    []string           `json:"incomplete"`
+	Unsupported   map[string]int     `json:"unsupported"`
+	Samples       []PathSample       `json:"samples"`
+	Queries       int                `json:"queries"`
+	Sat           int                `json:"sat"`
+	Unsat         int                `json:"unsat"`
+	Unknown       int                `json:"unknown"`
+	SolverErrors  int                `json:"solver_errors"`
+	Fallback      int                `json:"fallback_queries"`
+	SolverTime    float64            `json:"solver_time_s"`
+	Wall          float64            `json:"wall_s"`
+	Functions     []string           `json:"functions_encoded"`
+	Intrinsics    []string           `json:"intrinsics_used"`
+	GoSpawned     int                `json:"goroutines_deferred"`
+	Unwind        int                `json:"unwind_bound"`
+	CrossChecked  int                `json:"cross_checked"`
+	CrossDisagree int                `json:"cross_disagreements"`
+	ReverseMaps   bool               `json:"reversed_map_order"`
+	Validation    []ValidationSample `json:"validation"`
 }
 
 type KnownOut struct {
@@ -87,6 +90,9 @@ func main() {
 	trace := flag.Bool("trace", false, "trace every instruction (very verbose)")
 	inits := flag.String("init", "", "extra comma-separated packages whose init is run")
 	cross := flag.Int("cross", 0, "cross-check this many queries on a second solver")
+	nvalid := flag.Int("validate", 3, "number of completed paths whose model is emitted for native validation")
+	tierF := flag.String("tier", "quick", "quick or thorough (visible to harnesses as vTier())")
+	regionsF := flag.String("regions", "", "comma-separated open known-finding regions")
 	flag.BoolVar(&verbose, "v", false, "verbose")
 	flag.BoolVar(&noFallback, "nofallback", false, "do not try other solvers on unknown")
 	flag.BoolVar(&reverseMaps, "revmaps", false, "iterate maps in reverse insertion order")
@@ -98,6 +104,14 @@ func main() {
 		defer pprof.StopCPUProfile()
 	}
 
+	if *tierF == "thorough" {
+		tierLevel = 1
+	}
+	for _, r := range strings.Split(*regionsF, ",") {
+		if r != "" {
+			openRegions[r] = true
+		}
+	}
 	for _, p := range defaultInitPackages {
 		initPackages[p] = true
 	}
@@ -214,6 +228,7 @@ func main() {
 		ex2.unwind = *unwind
 		ex2.maxPaths = *maxPaths
 		ex2.deadline = time.Now().Add(*timeout)
+		ex2.wantValidation = *nvalid
 		theEx = ex2
 		i.funcsEntered = map[*ssa.Function]int{}
 		for k := range usedIntrinsics {
@@ -230,7 +245,7 @@ func main() {
 			Queries: solver.Queries - q0, Sat: solver.NSat - s0, Unsat: solver.NUnsat - u0, Unknown: solver.NUnknown - k0,
 			SolverErrors: solver.NErrors - e0, Fallback: solver.FallbackQ - f0,
 			SolverTime: (solver.SolveTime - st0).Seconds(), Wall: time.Since(h0).Seconds(),
-			GoSpawned: ex2.GoSpawned, Unwind: ex2.unwind, ReverseMaps: reverseMaps,
+			GoSpawned: ex2.GoSpawned, Unwind: ex2.unwind, ReverseMaps: reverseMaps, Validation: ex2.Validation,
 		}
 		for l := range ex2.ReachWanted {
 			r.Reach[l] = ex2.Reach[l]
